@@ -2,7 +2,8 @@
 """Both-ways self-test of the checkers on scratch copies of /repo/src (never in /repo):
   mutants.json   -- each entry breaks exactly one rule instance; the check must exit 1 and name it
   neutral.json   -- behaviour-preserving edits; the check must stay silent (exit 0)
-usage: selftest/run.py [Cxx ...]   (default: all)"""
+usage: selftest/run.py [Cxx ...] [case-name ...]   (default: all)
+Scratch runs (VERIF_SELFTEST=1) write neither /verif/evidence nor /verif/build/reports."""
 import json, os, shutil, subprocess, sys, tempfile
 
 VERIF = os.path.dirname(os.path.dirname(os.path.abspath(__file__)))
@@ -63,31 +64,24 @@ def run_one(m, expect_fire):
 
 
 def main():
-    props = set(a for a in sys.argv[1:] if a.startswith('C'))
+    props = set(a for a in sys.argv[1:] if a.startswith('C') and len(a) == 3)
+    names = set(a for a in sys.argv[1:] if a not in props)
     fails = 0
     total = 0
-    # evidence files are rewritten by scratch runs: keep the originals
-    evdir = os.path.join(VERIF, 'evidence')
-    keep = tempfile.mkdtemp(prefix='verif-ev-')
-    for f in os.listdir(evdir):
-        shutil.copy(os.path.join(evdir, f), keep)
-    try:
-        for fn, fire in (('mutants.json', True), ('neutral.json', False)):
-            path = os.path.join(VERIF, 'selftest', fn)
-            if not os.path.exists(path):
+    for fn, fire in (('mutants.json', True), ('neutral.json', False)):
+        path = os.path.join(VERIF, 'selftest', fn)
+        if not os.path.exists(path):
+            continue
+        for m in json.load(open(path)):
+            if props and m['property'] not in props:
                 continue
-            for m in json.load(open(path)):
-                if props and m['property'] not in props:
-                    continue
-                total += 1
-                ok, msg = run_one(m, fire)
-                print('%s %-8s %-40s %s' % ('ok  ' if ok else 'FAIL', m['property'], m['name'], msg if not ok else msg))
-                if not ok:
-                    fails += 1
-    finally:
-        for f in os.listdir(keep):
-            shutil.copy(os.path.join(keep, f), evdir)
-        shutil.rmtree(keep, ignore_errors=True)
+            if names and m['name'] not in names:
+                continue
+            total += 1
+            ok, msg = run_one(m, fire)
+            print('%s %-8s %-40s %s' % ('ok  ' if ok else 'FAIL', m['property'], m['name'], msg if not ok else msg))
+            if not ok:
+                fails += 1
     print('selftest: %d cases, %d failures' % (total, fails))
     return 1 if fails else 0
 
